@@ -91,7 +91,22 @@ func isDescendant(nodes []PNode, i, anc int) bool {
 }
 
 // CheckWalk asserts the traversal contract on one successfully parsed statement.
-func CheckWalk(st parser.Statement) {
+func CheckWalk(st parser.Statement) { checkWalk(st, 1<<30) }
+
+func walkInterrupted(st parser.Statement, j int) {
+	defer func() { recover() }()
+	calls := 0
+	parser.Walk(st, func(n parser.Node) bool {
+		if calls == j {
+			panic("visitor gives up")
+		}
+		calls++
+		return true
+	})
+}
+
+// checkWalk is CheckWalk with the arbitrary cut position drawn among the first maxJ visits.
+func checkWalk(st parser.Statement, maxJ int) {
 	_, nodes, bad := Reprint(st)
 	if bad != "" {
 		return // C08's subject
@@ -136,7 +151,11 @@ func CheckWalk(st parser.Statement) {
 	if len(visited) == 0 {
 		return
 	}
-	j := verif.Concrete(verif.IntRange(0, len(visited)))
+	nj := len(visited)
+	if nj > maxJ {
+		nj = maxJ
+	}
+	j := verif.Concrete(verif.IntRange(0, nj))
 	cut := nodeIndex(nodes, visited[j])
 	var second []parser.Node
 	calls := 0
@@ -158,6 +177,43 @@ func CheckWalk(st parser.Statement) {
 		}
 	}
 	verif.Cover("skip-checked")
+	// a traversal abandoned by a panicking visitor leaves nothing behind: the next
+	// traversal visits exactly the same nodes
+	walkInterrupted(st, j)
+	var third []parser.Node
+	parser.Walk(st, func(n parser.Node) bool {
+		third = append(third, n)
+		return true
+	})
+	verif.Assert(len(third) == len(visited), "a traversal after an abandoned one visits a different number of nodes")
+	if len(third) == len(visited) {
+		for i := range third {
+			verif.Assert(third[i] == visited[i], "a traversal after an abandoned one visits different nodes")
+		}
+	}
+	verif.Cover("history-checked")
+}
+
+// H_C11deep checks the traversal on the deep and wide program families of C12 (two
+// arbitrary tokens inside), the cut position among the first 6 visits.
+func H_C11deep(f, n int) {
+	prog := deepProgram(f, n)
+	slots := make([]int, len(prog))
+	for i, l := range prog {
+		slots[i] = vocabIndex(deepVocab, l)
+	}
+	slots[len(slots)/3] = -1
+	slots[2*len(slots)/3] = -1
+	stmts, err := parser.Parse(verif.TokenSeq(deepVocab, slots))
+	if err != nil {
+		verif.Cover("rejected")
+		return
+	}
+	verif.Cover("accepted")
+	for _, st := range stmts {
+		checkWalk(st, 6)
+	}
+	verif.Cover("deep-walk")
 }
 
 // H_C11 checks the traversal on every accepted sequence of k tokens.
